@@ -480,10 +480,38 @@ func (s *Storage) Find(id string) (p *Persistent, ok bool) {
 	return nil, false
 }
 
-// FindLoose is like [Storage.Find] but it also tries to find a persistent
-// client by IP address without zone.  It strips the IPv6 zone index from the
-// stored IP addresses before comparing, because querylog entries don't have it.
-// See TODO on [querylog.logEntry.IP].
+// FindByClientIDOrIP is like [Storage.Find] but id is only interpreted as a
+// ClientID or as the string representation of an IP address and never as a MAC
+// address.  It is used for the identifiers of DNS requests, where a ClientID
+// spelled like a MAC address, e.g. "aa-bb-cc-dd-ee-ff", must not be attributed
+// to the client that owns that MAC address.  The same order is used by
+// [Storage.ApplyClientFiltering].
+func (s *Storage) FindByClientIDOrIP(id string) (p *Persistent, ok bool) {
+	s.mu.Lock()
+	defer s.mu.Unlock()
+
+	p, ok = s.index.findByClientIDOrIP(id)
+	if ok {
+		return p.ShallowClone(), ok
+	}
+
+	ip, err := netip.ParseAddr(id)
+	if err != nil {
+		return nil, false
+	}
+
+	foundMAC := s.dhcp.MACByIP(ip)
+	if foundMAC != nil {
+		return s.FindByMAC(foundMAC)
+	}
+
+	return nil, false
+}
+
+// FindLoose is like [Storage.FindByClientIDOrIP] but it also tries to find a
+// persistent client by IP address without zone.  It strips the IPv6 zone index
+// from the stored IP addresses before comparing, because querylog entries don't
+// have it.  See TODO on [querylog.logEntry.IP].
 //
 // Note that multiple clients can have the same IP address with different zones.
 // Therefore, the result of this method is indeterminate.
@@ -491,7 +519,9 @@ func (s *Storage) FindLoose(ip netip.Addr, id string) (p *Persistent, ok bool) {
 	s.mu.Lock()
 	defer s.mu.Unlock()
 
-	p, ok = s.index.find(id)
+	// Do not interpret id as a MAC address, since it's either a ClientID or an
+	// IP address here.
+	p, ok = s.index.findByClientIDOrIP(id)
 	if ok {
 		return p.ShallowClone(), ok
 	}
